@@ -552,6 +552,14 @@ def gen_cases(chk):
     long_host = ".".join(["a" * 60] * 5)           # 304 characters: cut to the record's 255
     cases.append(Scn(host=long_host, gai={long_host[:255]: 2}, eps=["refuse", "accept"], ops=drain(2), kind="bypass+drain"))
 
+    # 3b. answers larger than a classic 512-octet UDP message (and larger than 4 KiB): many records with long targets
+    for nrec, lab in ((12, 40), (20, 50), (40, 60)):
+        longs = [".".join(["t%02d" % i + "x" * (lab - 3)] * 2) + "." + domain for i in range(nrec)]
+        recs = [(i % 3, 10 + i, 5222 + (i % 2), longs[i]) for i in range(nrec)]
+        for eps in (["refuse"] * (nrec - 1) + ["accept"], ["accept"]):
+            cases.append(Scn(domain=domain, jid="u@" + domain + "/r", srv=recs, gai={}, eps=eps, ops=drain(nrec),
+                             srv_opts={"compress_owner": True, "compress_target": False, "extra_cname": False}, kind="big-answer"))
+
     # 4. random larger lists
     n_random = 20000 if thorough else 2500
     for _ in range(n_random):
